@@ -309,3 +309,19 @@ Section State.
     | OOpen i => mkWorld (w_roots w) (w_codes w) (open (nth i (w_roots w) Nil) (w_codes w))
     end.
 End State.
+
+(* ---- the consensus view: what the Merkle root is computed from ----
+   node.go: valueNode.encodeConsensus appends n.val only — the metadata of a leaf (the storage-key preimage in a storage
+   trie; StorageID / StorageMajorVer / StorageMinorVer in the accounts trie) is not hashed; versions live in references and
+   node flags, not in the consensus encoding.  The value of an account leaf is the RLP of (balance, energy, block time,
+   master, code hash, storage root), the storage root being the Merkle root of the storage trie, i.e. a function of that
+   trie's own consensus view.  So the state root is a function of `cview`. *)
+Record caccount := mkCAcc {
+  c_bal : N; c_eng : N; c_bt : N; c_master : bytes; c_codehash : bytes;
+  c_sroot : option (node bytes)                       (* nil, or the consensus view of the storage trie *)
+}.
+Definition cview_storage (t : strie) : node bytes := map_node (fun l : sleaf => fst l) t.
+Definition cview_leaf (l : aleaf) : caccount :=
+  let a := fst l in
+  mkCAcc (a_bal a) (a_eng a) (a_bt a) (a_master a) (a_codehash a) (option_map cview_storage (a_sroot a)).
+Definition cview (t : atrie) : node caccount := map_node cview_leaf t.
